@@ -376,7 +376,15 @@ pub fn gen_ser_steps(rng: &mut Rng, n: usize, lim: &Limits, drops: bool) -> Vec<
             let m = g.next(rng, cs, lim, false);
             let fu = rng.chance(1, 8);
             let cd = drops && (m.ty == 8 || m.ty == 9 || rng.chance(1, 6)) && rng.chance(1, 2);
-            steps.push(SerStep { m, fu, cd, setcs: None });
+            steps.push(SerStep { m: m.clone(), fu, cd, setcs: None });
+            if cd && rng.chance(1, 10) {
+                // droppable packet, then a refused call on the same chunk stream, then a sibling of the droppable one:
+                // the refused call must leave the droppable bookkeeping alone (the sibling still starts with a full header)
+                steps.push(SerStep { m: M { ty: m.ty, msid: m.msid, ts: m.ts.wrapping_add(5), data: vec![0u8; 16777216] }, fu: false, cd: rng.chance(1, 2), setcs: None });
+                let mut sib = m.clone();
+                sib.ts = m.ts.wrapping_add(*rng.pick(&[0u32, 7, 40]));
+                steps.push(SerStep { m: sib, fu: false, cd: rng.chance(1, 3), setcs: None });
+            }
         }
     }
     steps
